@@ -51,7 +51,11 @@ v_memcpy(void *dst, const void *src, size_t n) {
 #ifdef EC_ENV_PRE_ECDSA
 EC_ENV_PRE_ECDSA			/* hook for harnesses that redirect names between the two headers */
 #endif
+#ifdef EC_LADDER_STUBS
+#include "ec_split.h"			/* generated: elliptic_curve.h with the point operations below the ladders stubbed */
+#else
 #include "math/elliptic_curve.h"
+#endif
 #ifdef EC_ENV_POST_EC
 #include EC_ENV_POST_EC			/* e.g. fault-injecting replacements of the scalar multiplications */
 #endif
@@ -140,6 +144,15 @@ env_index_of(uint32_t x, uint32_t y) {
 		return ((CV_NTOT - i));
 	return (0);
 }
+
+#ifdef EC_LADDER_STUBS
+/* havoc coordinates used by the point-operation stubs for results at infinity */
+#define ENV_PTOPS_IN	uint8_t phx, phy;
+#define ENV_PTOPS_INIT()	do { ptops_hx = IN.phx; ptops_hy = IN.phy; } while (0)
+#else
+#define ENV_PTOPS_IN
+#define ENV_PTOPS_INIT()	do { } while (0)
+#endif
 
 /* every harness ends with this */
 #define ENV_FINAL()	do { SB_FINAL(); V_ASSERT(0 == env_bad, "memcpy never copies more than one bignum"); } while (0)
